@@ -98,7 +98,8 @@ def gen_bigint(rng, n, tier):
     for bits in (384, 256):
         for a in boundary_ints(bits, rng)[:30] + [rng.getrandbits(bits) for _ in range(n)] + [(1 << bits) - 1]:
             L.append("bi_sqr %d %s" % (bits, hx(a, bits)))
-    for y in boundary_ints(256, rng)[:30] + [rng.getrandbits(256) for _ in range(n)] + [BLS_X, BLS_X - 1, BLS_X ** 2, BLS_X ** 3, BLS_X ** 4 - 1]:
+    for y in boundary_ints(256, rng)[:30] + [rng.getrandbits(256) for _ in range(n)] + [BLS_X, BLS_X - 1, BLS_X ** 2, BLS_X ** 3, BLS_X ** 4 - 1, (BLS_X ** 3) << 64, ((BLS_X ** 3) << 64) - 1, ((BLS_X ** 3) << 64) + rng.getrandbits(150),
+                                                                                                  (((BLS_X ** 3) >> 128) << 192) + rng.getrandbits(192), (BLS_X << 64) + 12345, (BLS_X << 128) + rng.getrandbits(128), R + (BLS_X << 128) + 7]:
         L.append("bi_divx %s" % hx(y % (1 << 256), 256))
     return L
 
@@ -349,9 +350,17 @@ def scalar_boundaries(rng, bits=256):
         v += [R - 1, R, R + 1, 2 * R - 1, 2 * R, 2 * R + 1, (3 * R) // 2, R // 2, (R + 1) // 2, R - BLS_X ** 2 % R,
               BLS_X, BLS_X - 1, BLS_X + 1, BLS_X ** 2, BLS_X ** 2 - 1, BLS_X ** 3, BLS_X ** 3 - 1, BLS_X ** 3 + 1, (BLS_X ** 4) % top, Q % R]
     if bits == 256:
+        # capacity of the four-digit base-|x| representation with a 64-bit top digit: 2^64*|x|^3 and its neighbours; scalars whose top
+        # 64-bit limb TIES with the top limb of that bound / of r / of 2r, with small, large and random lower limbs
+        cap = (BLS_X ** 3) << 64
+        v += [cap % top, (cap - 1) % top, (cap + 1) % top, (cap + rng.getrandbits(150)) % top]
+        for bound in (cap % top, R, 2 * R):
+            tl = (bound >> 192) << 192
+            v += [tl, tl + (1 << 192) - 1, tl + rng.getrandbits(192), (tl + (bound & ((1 << 192) - 1)) + rng.getrandbits(120)) % top]
+    if bits == 256:
         # a leading bit-prefix that is an exact multiple of |x| followed by many further bits (the partial remainder of the
         # bit-serial division by |x| then equals the divisor exactly), also after the subtraction of r
-        for (m, sh) in ((1, 62), (1, 100), (3, 64), (5, 130), (0x1234567, 150), (1, 191)):
+        for (m, sh) in ((1, 62), (1, 100), (3, 64), (5, 130), (0x1234567, 150), (1, 191), (1, 64), (1, 128)):
             kk = ((m * BLS_X) << sh) + rng.getrandbits(sh - 1)
             v += [kk % top, (kk + R) % top]
     v += [1 << k for k in range(8, bits, max(8, bits // 16))] + [(1 << k) - 1 for k in range(8, bits, max(8, bits // 16))]
@@ -441,7 +450,10 @@ def xrand_boundary_streams(rng):
 def gen_gt(rng, n, tier):
     L = []
     sb = scalar_boundaries(rng)
-    for k in rng.sample(sb, min(len(sb), n)) + [0, 1, R, R - 1, (1 << 256) - 1, 2 * R + 5]:
+    cap = (BLS_X ** 3) << 64
+    ties = [cap, cap - 1, cap + rng.getrandbits(150), ((cap >> 192) << 192) + rng.getrandbits(192), ((cap >> 192) << 192) + (1 << 192) - 1,
+            (BLS_X << 64) + rng.getrandbits(60), (BLS_X << 128) + rng.getrandbits(128), (R + (BLS_X << 128) + rng.getrandbits(100)) % (1 << 256)]
+    for k in rng.sample(sb, min(len(sb), n)) + [0, 1, R, R - 1, (1 << 256) - 1, 2 * R + 5] + ties:
         s = rng.choice([1, 2, rng.randrange(R), R - 1])
         L.append("gt_exp %s %s %s" % (hx(s, 256), hx(k, 256), rng.choice(["n", "a"])))
     for k in sb:
@@ -502,6 +514,27 @@ def gen_pairing(rng, n, tier):
                     else: b = None
                 pts.append("%s %s" % (E1.aff(a, rng, canon=rng.random() < 0.5), E2.aff(b, rng, canon=rng.random() < 0.5)))
             L.append(("pairing_sum %s %s" % (sh, " ".join(pts))).strip())
+    # long lists (C08 quantifies over ANY number of pairs): lengths around 64/65 and 255/256/257/512, identities at the positions that
+    # alias modulo 64, exactly 256 / 512 pairs without an identity, all-identity lists
+    def longlist(kinds, idpos=()):
+        toks = []
+        for i, kd in enumerate(kinds):
+            a, b = rng.randrange(1, 1 << 16), rng.randrange(1, 1 << 16)
+            if i in idpos:
+                if rng.random() < 0.5: a = 0
+                else: b = 0
+            toks.append("%s%d,%d" % (kd, a, b))
+        return "pairing_sum_long %d %s" % (len(kinds), " ".join(toks))
+    L.append(longlist("p" * 66, idpos=(0,)))
+    L.append(longlist("p" * 66, idpos=(65,)))
+    L.append(longlist("a" * 66, idpos=(1,)))
+    L.append(longlist("p" * 65, idpos=tuple(range(0, 64))))
+    L.append(longlist("a" * 130 + "p" * 126))
+    L.append(longlist("p" * 202 + "a" * 58, idpos=(3, 77, 201, 259)))
+    if tier == "thorough":
+        L.append(longlist("p" * 256)); L.append(longlist("a" * 256)); L.append(longlist("ap" * 256))
+        L.append(longlist("a" * 255)); L.append(longlist("p" * 257, idpos=(256,)))
+        L.append(longlist("ap" * 40, idpos=tuple(range(80))))
     # several G1 points paired with ONE G2 object (the harness passes the same pointer for byte-identical second arguments),
     # plain and prepared, with an identity G1 member at the start / middle / end of the run
     q = E2.aff(P2(), rng); q2 = E2.aff(P2(), rng)
